@@ -38,7 +38,7 @@ def main():
         out = {"obs": None, "oracle": None}
         sys.stdout = sys.stderr  # the implementation prints on some error paths
         try:
-            signal.alarm(int(getattr(mod, "CASE_TIMEOUT", 20) * scale))
+            signal.alarm(min(int(getattr(mod, "CASE_TIMEOUT", 20) * scale), 1500))
             with warnings.catch_warnings():
                 warnings.simplefilter("ignore")
                 if what in ("obs", "both"):
